@@ -18,6 +18,7 @@ func (p *parser) parseFile() {
 
 	// X64 强制采用 intel 语法
 	if p.cpu == abi.X64Unix || p.cpu == abi.X64Windows {
+	Prelude:
 		for {
 			if p.err != nil {
 				return
@@ -27,6 +28,8 @@ func (p *parser) parseFile() {
 			}
 
 			switch p.tok {
+			default:
+				break Prelude // first token of the body
 			case token.COMMENT:
 				commentObj := p.parseCommentGroup(true)
 				p.prog.Comments = append(p.prog.Comments, commentObj)
